@@ -47,6 +47,7 @@ def key_class(k):
     if k[0] == " " or k[-1] == " ": return "key-with-leading-or-trailing-blank"
     if k.startswith("HIERARCH "): return "explicit-HIERARCH-prefix"
     if k in ("END", "HISTORY", "CONTINUE"): return "commentary-keyword-" + k
+    if k in ("EXTNAME", "HDUNAME"): return "hdu-name-keyword-" + k    # names the primary HDU: read_fits finds the knot images by name (fix 9579c12)
     if not printable(k): return "non-printable-character-in-key"
     return None
 
